@@ -8,19 +8,23 @@ EXTENDS Integers, Sequences
 RECURSIVE GCD(_, _)
 GCD(a, b) == IF b = 0 THEN a ELSE GCD(b, a % b)
 IAbs(i)   == IF i < 0 THEN 0 - i ELSE i
-\* One Euclid run per operation (TLC interprets GCD recursively, it dominates the cost of a rational operation).
 Rt(n, d)  == LET g == GCD(IAbs(n), IAbs(d)) IN
              IF d < 0 THEN <<(0 - n) \div g, (0 - d) \div g>> ELSE <<n \div g, d \div g>>
 RI(i)     == <<i, 1>>
 Zero      == <<0, 1>>
 One       == <<1, 1>>
+\* sums over the least common denominator and cross-reduced products: no needless overflow
+AddL(x, y, g) == Rt(x[1] * (y[2] \div g) + y[1] * (x[2] \div g), (x[2] \div g) * y[2])
+MulL(x, y, g1, g2) == <<(x[1] \div g1) * (y[1] \div g2), (x[2] \div g2) * (y[2] \div g1)>>
 \* (shortcuts for 0 and 1 first: most parameters of a preset are 0 or 1)
-Add(x, y) == IF x[1] = 0 THEN y ELSE IF y[1] = 0 THEN x ELSE IF x[2] = y[2] THEN Rt(x[1] + y[1], x[2]) ELSE Rt(x[1] * y[2] + y[1] * x[2], x[2] * y[2])
-Sub(x, y) == IF y[1] = 0 THEN x ELSE IF x[2] = y[2] THEN Rt(x[1] - y[1], x[2]) ELSE Rt(x[1] * y[2] - y[1] * x[2], x[2] * y[2])
-Mul(x, y) == IF x[1] = 0 \/ y[1] = 0 THEN Zero ELSE IF x = One THEN y ELSE IF y = One THEN x ELSE Rt(x[1] * y[1], x[2] * y[2])
-Inv(y)    == IF y[1] < 0 THEN <<0 - y[2], 0 - y[1]>> ELSE <<y[2], y[1]>>         \* y # 0
-Div(x, y) == IF x[1] = 0 THEN Zero ELSE IF y = One THEN x ELSE Rt(x[1] * y[2], x[2] * y[1])             \* y # 0
+Add(x, y) == IF x[1] = 0 THEN y ELSE IF y[1] = 0 THEN x ELSE IF x[2] = y[2] THEN Rt(x[1] + y[1], x[2])
+             ELSE AddL(x, y, GCD(x[2], y[2]))
 Neg(x)    == <<0 - x[1], x[2]>>
+Sub(x, y) == Add(x, Neg(y))
+Mul(x, y) == IF x[1] = 0 \/ y[1] = 0 THEN Zero ELSE IF x = One THEN y ELSE IF y = One THEN x
+             ELSE MulL(x, y, GCD(IAbs(x[1]), y[2]), GCD(IAbs(y[1]), x[2]))
+Inv(y)    == IF y[1] < 0 THEN <<0 - y[2], 0 - y[1]>> ELSE <<y[2], y[1]>>         \* y # 0
+Div(x, y) == Mul(x, Inv(y))                                                      \* y # 0
 Lt(x, y)  == x[1] * y[2] < y[1] * x[2]
 Le(x, y)  == x[1] * y[2] <= y[1] * x[2]
 IsZero(x) == x[1] = 0
